@@ -1,13 +1,17 @@
 #!/bin/bash
-# usage: tools/run_benign.sh   -- applies each kept behaviour-preserving edit to /repo, runs the check of the property whose cone contains the file, reverts
+# usage: tools/run_benign.sh [benign/<id>/ ...]   -- applies each kept behaviour-preserving edit to /repo, runs the check of the property whose cone contains the file, reverts
 cd /verif
 propfor() { case "$1" in
   *fixed_point*) echo C08;; *supply*) echo C09;; *fixed_priority*|*edf*|*fifo*) echo C06;; *ros2*) echo C07;;
   *arrival*) echo C10;; *wcet*) echo C14;; *demand*) echo C16;; *) echo C20;; esac; }
-for d in benign/*/; do
+dirs=${@:-benign/*/}
+for d in $dirs; do
   [ -f $d/patch.diff ] || continue
   f=$(grep -m1 '^+++ b/' $d/patch.diff | sed 's#+++ b/##')
   p=$(propfor $f)
+  # edits of steps_iter / step_offsets are looked at by the check that has those items in its cone
+  if grep -q 'steps_iter' $d/patch.diff && [ $p = C10 ]; then p=C11; fi
+  case "$f" in *demand/mod.rs*) p=C06;; esac
   out=$(TRY_FLAGS="--no-kani" tools/try_patch.sh /verif/$d/patch.diff $p 2>&1)
   echo "$(basename $d) $f $p :: $(echo "$out" | grep -E '^(OK|VIOLATION|UNDECIDED)' | head -2 | cut -c1-150 | tr '\n' '|') notes=$(echo "$out" | grep -c '^note:')"
 done
